@@ -188,6 +188,7 @@ func c17R1(c *Check, validate, merge, urls *ssa.Function) {
 	{
 		g := P.SSA[pkgInt].Var("ErrMultipleOIDCConfig")
 		okLatch := false
+		latchBad := ""
 		for _, vf := range deepFuncs(validate, 2) {
 		if pkgPathOf(vf) != pkgInt {
 			continue
@@ -208,11 +209,19 @@ func c17R1(c *Check, validate, merge, urls *ssa.Function) {
 								okLatch = true
 							}
 						}
+						// the latch is monotone within the chain: once set it stays set until the next chain starts — every
+						// value merged into it is the constant true, the constant false coming from outside the filter loop
+						// (initialisation per chain), or the latch itself; `seen = isOIDC(current)` forgets earlier filters
+						if why := latchNotMonotone(ph); why != "" {
+							latchBad = why
+						}
 					}
 				}
 			}
 		}
 		}
+		c.Obl(latchBad == "", "C17.R1", "refusal/multiple-oidc-latch-monotone", P.Pos(validate.Pos()), "the latch is only ever set (true) inside the filter loop and cleared where a chain starts",
+			"the one-OIDC-filter-per-chain latch can be cleared again inside a chain ("+latchBad+"): two OIDC filters separated by another filter are accepted")
 		c.Obl(okLatch, "C17.R1", "refusal/multiple-oidc-latch", P.Pos(validate.Pos()), "the one-OIDC-filter-per-chain refusal is guarded by a latch that is set when an OIDC filter or override is seen",
 			"the one-OIDC-filter-per-chain latch is never set (or the refusal is not guarded by it): a chain with two OIDC filters is accepted")
 	}
@@ -508,6 +517,7 @@ func c17R2(c *Check, validate, merge, defaults, oidcURLs *ssa.Function) {
 		c.Obl(found, "C17.R2", key, P.Pos(fn.Pos()), want+": enforced and guards an error", want+": the enforcing test is missing or no longer guards an error")
 	}
 	chk(oidcURLs, "callback/parseable", "validateURL", idOIDCConfig+".GetCallbackUri", "callback URI must parse")
+	rootPathTestShape(c)
 	chk(oidcURLs, "callback/non-root", "hasRootPath", idOIDCConfig+".GetCallbackUri", "callback URI must not have the root path")
 	chk(merge, "logout/non-root", "isRootPath", pkgCfgOIDC+".LogoutConfig.GetPath", "logout path must not be the root path")
 	// logout path != callback path on the merged filter config
@@ -963,4 +973,116 @@ func openidScopeRule(c *Check, rule string, defaults *ssa.Function) {
 		}
 		c.Obl(ok, rule, fmt.Sprintf("openid-scope/return#%d", i+1), P.Pos(instrPos(r)), why, why)
 	}
+}
+
+// latchNotMonotone: ph is a boolean loop variable. Returns "" when every value merged into it (through the
+// phi web it belongs to) is the constant true, the phi web itself, or the constant false arriving on an edge
+// that does not come from inside the innermost loop of the phi that receives it.
+func latchNotMonotone(ph *ssa.Phi) string {
+	web := map[*ssa.Phi]bool{}
+	var collect func(p *ssa.Phi)
+	collect = func(p *ssa.Phi) {
+		if web[p] {
+			return
+		}
+		web[p] = true
+		for _, e := range p.Edges {
+			if q, ok := e.(*ssa.Phi); ok && isBool(q.Type()) {
+				collect(q)
+			}
+		}
+	}
+	collect(ph)
+	for p := range web {
+		for i, e := range p.Edges {
+			if q, ok := e.(*ssa.Phi); ok && web[q] {
+				continue
+			}
+			if b, isC := constBool(e); isC {
+				if b {
+					continue
+				}
+				// false: only as (re)initialisation — the edge's source block is not inside a loop that the phi's block
+				// heads and in which the latch was set (approximation: the predecessor does not reach itself through
+				// the phi's block without leaving the phi's innermost loop ⇒ it is the loop entry edge)
+				pred := p.Block().Preds[i]
+				if !blockReaches(p.Block(), pred) || pred.Dominates(p.Block()) {
+					continue
+				}
+				return "false is merged into the latch from inside the loop at " + pred.String()
+			}
+			return "the latch is overwritten with a computed value (" + descDepth(e, 2) + ")"
+		}
+	}
+	return ""
+}
+
+// rootPathTestShape: "has the root path" means: the URL's path component is "/" or empty. isRootPath compares
+// its parameter with both constants; hasRootPath applies that test (or the same two comparisons) to the Path
+// field of url.Parse(its parameter) — not to RequestURI()/String()/EscapedPath(), which carry the query or
+// normalise the path and let `http://host/?x=1` pass as a non-root callback.
+func rootPathTestShape(c *Check) {
+	P := c.P
+	isRoot := P.Func(pkgInt, "isRootPath")
+	hasRoot := P.Func(pkgInt, "hasRootPath")
+	if !c.Anchor("C17.R2", "isRootPath and hasRootPath", isRoot != nil && hasRoot != nil && len(isRoot.Params) == 1 && len(hasRoot.Params) == 1) {
+		return
+	}
+	// both constants compared (==) with subject, and the comparisons decide the result
+	comparesBoth := func(fn *ssa.Function, subject func(ssa.Value) bool) (bool, string) {
+		seen := map[string]bool{}
+		for _, b := range fn.Blocks {
+			for _, ins := range b.Instrs {
+				bo, ok := ins.(*ssa.BinOp)
+				if !ok || (bo.Op != token.EQL && bo.Op != token.NEQ) {
+					continue
+				}
+				x, y := bo.X, bo.Y
+				if _, isC := constString(x); isC {
+					x, y = y, x
+				}
+				s, isC := constString(y)
+				if !isC || !isString(x.Type()) {
+					continue
+				}
+				if !subject(x) {
+					if s == "/" {
+						return false, "\"/\" is compared with " + descDepth(x, 3) + " instead of the path component"
+					}
+					continue
+				}
+				if (s == "/" || s == "") && (flowsToBranch(bo) || valueReturned(fn, bo) || influencesOutcome(bo)) {
+					seen[s] = true
+				}
+			}
+		}
+		if !seen["/"] || !seen[""] {
+			return false, fmt.Sprintf("the path is not compared with both \"/\" and \"\" (found %v)", keysOf(seen))
+		}
+		return true, ""
+	}
+	ok1, why1 := comparesBoth(isRoot, func(v ssa.Value) bool { return resolveCell(stripConv(v)) == ssa.Value(isRoot.Params[0]) })
+	c.Obl(ok1, "C17.R2", "root-path-test/isRootPath", P.Pos(isRoot.Pos()), "isRootPath(p) ⇔ p == \"/\" || p == \"\"", "isRootPath: "+why1)
+	pathOfParsedParam := func(v ssa.Value) bool {
+		base, f, ok := fieldLoad(resolveCell(stripConv(v)))
+		if !ok || f == nil || f.Name() != "Path" || typeID(derefType(base.Type())) != "net/url.URL" {
+			return false
+		}
+		pc, idx, isC := asCall(resolveCell(stripConv(base)))
+		return isC && idx == 0 && isCallToAny(pc, "net/url.Parse", "net/url.ParseRequestURI") && resolveCell(stripConv(pc.Common().Args[0])) == ssa.Value(hasRoot.Params[0])
+	}
+	ok2, why2 := false, "hasRootPath does not apply the root test to url.Parse(argument).Path"
+	for _, ci := range callsToFn(hasRoot, isRoot) {
+		a := callArgs(ci)[0]
+		if pathOfParsedParam(a) && (valueReturned(hasRoot, ci.Value()) || flowsToBranch(ci.Value())) {
+			ok2, why2 = true, ""
+		} else {
+			ok2, why2 = false, "the root test is applied to "+descDepth(resolveCell(stripConv(a)), 3)+", not to the Path of the parsed argument"
+			break
+		}
+	}
+	if len(callsToFn(hasRoot, isRoot)) == 0 {
+		ok2, why2 = comparesBoth(hasRoot, pathOfParsedParam)
+	}
+	c.Obl(ok2, "C17.R2", "root-path-test/hasRootPath", P.Pos(hasRoot.Pos()), "hasRootPath(u) tests url.Parse(u).Path for \"/\" or \"\"", "hasRootPath: "+why2)
 }
